@@ -154,6 +154,25 @@ def main():
         if d is None:
             continue
         emit('domain', d, run_case(d))
+    # header blocks of many kilobytes (hundreds of folded trace fields, every line within 78 bytes): nothing in the
+    # statement bounds the size of a well-formed header block
+    big = [(2, 20), (5, 70)] if quick else [(1, 3), (2, 9), (3, 33), (4, 63), (5, 66), (6, 70), (7, 130), (8, 20), (9, 64), (10, 65)]
+    for sh_, kb in big:
+        if sh_ % nshards != shard:
+            continue
+        eol = rnd.choice([b'\r\n', b'\n'])
+        fields, size, j = [], 0, 0
+        while size < kb * 1024:
+            j += 1
+            fld = (b'Received: from h%d.example (h%d.example [192.0.2.%d])' % (j, j, j % 250) + eol +
+                   b'\tby mx.example with ESMTP id %08d;' % j + eol + b' Mon, 1 Jan 2024 00:00:%02d +0000' % (j % 60) + eol)
+            fields.append(fld)
+            size += len(fld)
+        fields.insert(rnd.randint(0, len(fields)), b'Subject: big' + eol)
+        bodies = [b'line one\nline two\r\nlone \r cr\n', b'\r\n\r\nafter blank lines\n.\n', b'\n \nx\r', b'plain\r\n', b'']
+        for body in (rnd.sample(bodies[:3], 2) + [rnd.choice(bodies[3:])]) if quick else bodies:
+            d = b''.join(fields) + eol + body
+            emit('domain', d, run_case(d))
     for _ in range(300 if quick else 6000):
         d = bytes(rnd.choice([0, 13, 10, 46, 97, 58, 32, 9, 255, 104, 61, 63]) for _ in range(rnd.randint(0, 40)))
         if rnd.random() < 0.2:
